@@ -9,6 +9,11 @@ fn pattern(ty: Ty, len: usize, variant: usize) -> Vec<Val> {
             if ty == Ty::Trk {
                 return Val::I(i as i64);
             }
+            // variant 4: like 1, plus an infinity (an ordinary non-null float)
+            if variant == 4 && ty.is_float() && i == 0 {
+                return Val::F(f64::INFINITY);
+            }
+            let variant = if variant == 4 { 1 } else { variant };
             let null = ty.nullable()
                 && match variant {
                     0 => false,
@@ -117,6 +122,16 @@ pub fn c09_sweep(max_l: usize) -> Vec<Program> {
                             vec![Op::NextBack, Op::Next, Op::NextBack],
                             to_vec(),
                         ));
+                    }
+                }
+                // ---- partitions on data holding an infinity (valid, but not finite)
+                if ty.is_float() && bi == 0 {
+                    let inf_data = pattern(ty, len, 4);
+                    for k in 0..=len + 1 {
+                        for sort in [false, true] {
+                            out.push(pipe(ty, inf_data.clone(), backend.clone(), ViewOp::VPart { k, sort, rev: false }, vec![Op::Next; len + 2], Terminal::Drain));
+                            out.push(pipe(ty, inf_data.clone(), backend.clone(), ViewOp::VArgPart { k, sort, rev: true }, vec![Op::Next; len + 2], Terminal::Drain));
+                        }
                     }
                 }
                 // ---- iterator-level adaptors applied to a (partially consumed) container iterator
@@ -542,6 +557,14 @@ pub fn generators(level: usize) -> Vec<Program> {
             let neg = s.as_f64() < 0.0;
             let (x, y) = if neg { (b.clone(), a.clone()) } else { (a.clone(), b.clone()) };
             out.push(Program::Gen(Gen { ty, kind: GenKind::Range { start: Some(x), end: y, step: Some(s) }, out: c }));
+        }
+    }
+    // collect_vec1_opt by element type: every None must become the element type's own null
+    for ty in [GenTy::Str, GenTy::F32, GenTy::F64] {
+        for c in containers {
+            for mask in [vec![], vec![true], vec![false], vec![false, true, false], vec![true, true], vec![true, false, false, true]] {
+                out.push(Program::Gen(Gen { ty, kind: GenKind::OptCollect { mask }, out: c }));
+            }
         }
     }
     // full / empty with an element type that is Clone but not Copy
